@@ -235,6 +235,8 @@ def judge(res, pid, traces, workdir, monitors=etrace.ALL_MONITORS, nontrivial=No
                 continue        # an exception in a state covered by a recorded C01 finding is not a tie-discipline matter
             if pid in clause_property(t["cfg"]["rule"], clause, live):
                 sig = signature(t, clause, rec.get("flags", []))
+                if t["_inp"].get("mixed") and clause.startswith("Error:") and not live:
+                    sig = "%s:MixedBallot:%s" % (t["cfg"]["rule"], clause)     # an exception on ranked ballots that also carry scores
                 res.violation(sig, "trace of %s rejected at event %d: clause %s (spec status %s, flags %s)" % (
                     t["cfg"]["rule"], rec["l"], clause, rec["status"], rec.get("flags", [])),
                     {"input": t["_inp"], "trace": {k: x for k, x in t.items() if not k.startswith("_")}, "verdict": rec})
